@@ -18,6 +18,7 @@ import (
 	"github.com/jirenius/go-res/store/badgerstore"
 	"github.com/jirenius/go-res/store/mockstore"
 	"github.com/jirenius/keylock"
+	"github.com/jirenius/taskqueue"
 
 	"verif/sim/sched"
 )
@@ -85,7 +86,7 @@ type otherRec struct {
 }
 
 var storePoints = []string{"create.beforeTxn", "create.inTxn", "create.afterCommit", "update.beforeTxn", "update.inTxn", "update.afterCommit",
-	"delete.beforeTxn", "delete.inTxn", "delete.afterCommit", "store.op"}
+	"delete.beforeTxn", "delete.inTxn", "delete.afterCommit", "store.op", "badger.commit"}
 
 // StoreLinScenario: stores are per-id linearizable maps with exact change
 // callbacks (C11).
@@ -280,8 +281,10 @@ func (StoreLinScenario) Execute(sim *sched.Sim, ci interface{}, prop string, rac
 		})
 		st = bs
 		badgerstore.VerifHook = sim.Yield
+		badger.VerifHook = sim.Yield
 		keylock.Hook = sim.Yield
-		defer func() { badgerstore.VerifHook = nil; keylock.Hook = nil }()
+		taskqueue.Hook = sim.Yield
+		defer func() { badgerstore.VerifHook = nil; badger.VerifHook = nil; keylock.Hook = nil; taskqueue.Hook = nil }()
 	}
 	st.OnChange(func(id string, before, after interface{}) {
 		name := "?"
